@@ -318,6 +318,8 @@ func (ex *Exec) runPath(h *Harness, prefix []int32) (reason string) {
 	ex.res = pathResult{siteReach: map[string]int{}, siteSym: map[string]int{}, unsupported: map[string]int{}, funcs: map[string]int{}, stubs: map[string]int{}}
 	ex.pending = nil
 	ex.snaps = nil
+	ex.syncMaps = nil
+	ex.onceDone = nil
 	defer func() {
 		r := recover()
 		if r != nil {
